@@ -85,7 +85,7 @@ RULES = {
     "C11": _u(TIMEAD, ("R20", link.r20_target), ("R21", buffer.r21_evict), ("R04", buffer.r04_cmp), ("R22", spill.r22_pack), ("R24", spill2.r24s_format)),
     "C12": _u(INTEG, ("R20", link.r20_target), ("R26", buffer.r26_buffer), ("R22", spill.r22_pack), ("R21", buffer.r21_evict), ("R04", buffer.r04_cmp),
               ("R24", spill2.r24s_format)),
-    "C13": _u(("R30", link.r30_delay), ("R27c", buffer.r27c_constructors), ("R02", sched.r02_sched_agree), ("R03", sched.r03_r09_step), ("R20", link.r20_target)),
+    "C13": _u(("R30", link.r30_delay), ("R27c", buffer.r27c_constructors), ("R02", sched.r02_sched_agree), ("R03", sched.r03_r09_step), ("R20", link.r20_target), ("R16", data.r16_getinfo)),
     "C14": _u(("R31", grid.r31_memo), ("R32", grid.r32_gridsib), ("R32b", grid.r32b_indexspace), ("R32c", grid.r32c_cellcenters),
               ("R32d", grid.r32d_cellcorners),
               ("R33", grid.r33_mirror), ("R15g", data.r15g_gridcompat)),
